@@ -5,6 +5,7 @@ import (
 	"fmt"
 	"math/big"
 	"strings"
+	"time"
 
 	"github.com/canopy-network/canopy/fsm"
 	"github.com/canopy-network/canopy/lib"
@@ -192,10 +193,19 @@ func (f *failOnce) fail(sig, desc string, replay any) {
 
 // Run is the C06 driver.
 func Run(o *drv.Out) {
+	start := time.Now()
+	defer func() { o.Extra["seconds_total"] = int(time.Since(start).Seconds()) }()
 	fo := &failOnce{o: o, seen: map[string]bool{}}
 	for _, scheme := range schemes {
 		runReplay(o, fo, scheme)
 	}
+	t0 := time.Now()
+	for i, scheme := range schemes {
+		if i == 0 || o.Tier == "thorough" {
+			runBlockShapes(o, fo, scheme)
+		}
+	}
+	o.Extra["seconds_block_shapes"] = int(time.Since(t0).Seconds())
 	runMultisig(o, fo)
 	runRLP(o, fo)
 	runCrossChain(o, fo)
